@@ -3,7 +3,7 @@
 usage: try_seed.py <seed dir with patch.diff + demo.py> <Cxx> [more props]
 Applies the patch to /repo (or, with TRY_SEED_REPO=<scratch worktree of /repo at HEAD>, to that worktree, the checks then
 run with VERIF_REPO pointing at it), runs the demo and the property's quick check, and ALWAYS reverts the tree afterwards.
-NOTE: check.py rewrites evidence/<id>.json from the patched run: restore with `git checkout -- evidence` afterwards."""
+Evidence and replay files of these runs go to /tmp/try_seed_out (VERIF_SCRATCH_OUT), not to /verif."""
 import json
 import os
 import subprocess
@@ -12,7 +12,9 @@ import time
 
 seed, props = sys.argv[1], sys.argv[2:]
 REPO = os.environ.get("TRY_SEED_REPO", "/repo")
-ENVP = "" if REPO == "/repo" else f"VERIF_REPO={REPO} "
+ENVP = "VERIF_SCRATCH_OUT=/tmp/try_seed_out " + ("" if REPO == "/repo" else f"VERIF_REPO={REPO} ")
+os.makedirs("/tmp/try_seed_out/evidence", exist_ok=True)
+os.makedirs("/tmp/try_seed_out/replays", exist_ok=True)
 patch = os.path.join(seed, "patch.diff")
 demo = os.path.join(seed, "demo.py")
 out = {"seed": seed, "props": {}}
